@@ -314,3 +314,20 @@ def d_foreach():
 
 ALL += [d_foreach]
 WORDS["d_foreach"] = [["e"], []]
+
+
+def d_multi_target_deep():
+    # two targets in different regions of a parallel, one of them deep below a compound state whose <initial>
+    # element names ANOTHER child: the explicit target wins, the <initial> transition is not taken
+    f7 = Final(name="f7")
+    s6 = State(f7, name="s6")
+    s6b = State(name="s6b")
+    s5 = State(s6, s6b, InitialEl(["s6b"], content=[log("init5")]), name="s5")
+    s9 = State(name="s9")
+    s4 = Parallel(s5, s9, name="s4")
+    o = State(name="o", trans=[T("g", ["f7", "s9"]), T("e", ["s4"])])
+    return Chart(Scxml(o, s4), tags=["multitarget", "initial"])
+
+
+ALL += [d_multi_target_deep]
+WORDS["d_multi_target_deep"] = [["g"], ["e"]]
